@@ -124,6 +124,7 @@ theorem step_trk_other (s : Sys F) (e : Ev) (h : ∀ now pkt, e ≠ .client now 
   | setCfg cfg => rfl
   | crit d => rfl
   | failNext cid => rfl
+  | failBind cid => rfl
 
 /-! ## Shell invariant: remembered ids are ids of links -/
 
